@@ -380,7 +380,7 @@ pub fn replay(v: &serde_json::Value) -> Vec<Violation> {
 
 pub fn run(thorough: bool) -> i32 {
     let mut rep = Report::new("C17", "model_checking", if thorough { "thorough" } else { "quick" });
-    let depth = if thorough { 5 } else { 4 };
+    let depth = if thorough { 6 } else { 4 };
     let alphabet = vec![Ev::ObjNoFti(1), Ev::ObjNoFti(0), Ev::ObjFti(1), Ev::ObjFti(2), Ev::ObjFtiB(0), Ev::ObjFtiB(1), Ev::ObjFar(1), Ev::FdtFrag(1), Ev::FdtFrag(0), Ev::FdtFull(3), Ev::FdtFull(0), Ev::OtherTsi, Ev::OtherEndpoint, Ev::HalfTick, Ev::TickObj, Ev::TickSess];
     let cfgs: Vec<Cfg> = {
         let mut v = Vec::new();
@@ -391,29 +391,60 @@ pub fn run(thorough: bool) -> i32 {
         }
         v
     };
-    // (A) all sequences to the depth bound
-    let mut seqs: Vec<Vec<Ev>> = vec![vec![]];
-    let mut all: Vec<Vec<Ev>> = Vec::new();
-    for _ in 0..depth {
-        let mut next = Vec::new();
-        for s in &seqs {
-            for a in &alphabet {
-                let mut s2 = s.clone();
-                s2.push(a.clone());
-                next.push(s2);
+    // (A) all sequences to the depth bound: one work item per (configuration, length, first two events);
+    // the remaining events are enumerated lazily inside the worker (16^6 histories do not fit a Vec)
+    let acfgs: Vec<usize> = if thorough { (0..cfgs.len()).collect() } else { vec![0, 4] };
+    let na = alphabet.len();
+    let mut witems: Vec<(usize, usize, usize)> = Vec::new(); // (cfg, length, prefix code)
+    for ci in &acfgs {
+        for len in 1..=depth {
+            let pl = len.min(2);
+            for pc in 0..na.pow(pl as u32) {
+                witems.push((*ci, len, pc));
             }
         }
-        all.extend(next.iter().cloned());
-        seqs = next;
     }
-    let mut items: Vec<(usize, usize, usize)> = Vec::new(); // (cfg, seq index, repeat)
-    let acfgs: Vec<usize> = if thorough { (0..cfgs.len()).collect() } else { vec![0, 4] };
-    for ci in &acfgs {
-        for si in 0..all.len() {
-            items.push((*ci, si, 1));
+    let alpha = &alphabet;
+    let cfgs_ref = &cfgs;
+    let wres = par_map(&witems, |_, (ci, len, pc)| {
+        let pl = (*len).min(2);
+        let rest = len - pl;
+        let mut found: Vec<(String, String, Vec<Ev>)> = Vec::new();
+        let mut peak = 0isize;
+        let mut n = 0u64;
+        let mut seq: Vec<Ev> = Vec::with_capacity(*len);
+        for code in 0..na.pow(rest as u32) {
+            seq.clear();
+            let mut c = *pc;
+            for _ in 0..pl {
+                seq.push(alpha[c % na].clone());
+                c /= na;
+            }
+            let mut c = code;
+            for _ in 0..rest {
+                seq.push(alpha[c % na].clone());
+                c /= na;
+            }
+            n += 1;
+            let (v, pk) = run_seq(&cfgs_ref[*ci], &seq, 1);
+            peak = peak.max(pk);
+            if let Some((key, what)) = v {
+                if !found.iter().any(|f| f.0 == key) {
+                    found.push((key, what, seq.clone()));
+                }
+            }
+        }
+        (found, peak, n)
+    });
+    let mut peak = 0isize;
+    let mut n_depth = 0usize;
+    for ((ci, _, _), (found, pk, n)) in witems.iter().zip(wres) {
+        peak = peak.max(pk);
+        n_depth += n as usize;
+        for (key, what, seq) in found {
+            rep.add(Violation { key, what, case: json!({"check": "seq", "case": {"cfg": cfgs[*ci], "seq": seq, "repeat": 1}}) });
         }
     }
-    let n_depth = items.len();
     // (C) pumping: every event and every ordered pair, 300 times
     let mut pumps: Vec<Vec<Ev>> = alphabet.iter().map(|a| vec![a.clone()]).collect();
     for a in &alphabet {
@@ -423,8 +454,7 @@ pub fn run(thorough: bool) -> i32 {
             }
         }
     }
-    let pump_base = all.len();
-    all.extend(pumps.iter().cloned());
+    let mut items: Vec<(usize, usize, usize)> = Vec::new(); // (cfg, pump index, repeat)
     for ci in 0..cfgs.len() {
         if !thorough && ci % 2 == 1 {
             continue;
@@ -433,16 +463,15 @@ pub fn run(thorough: bool) -> i32 {
             if !thorough && pumps[pi].len() == 2 && (pi + ci) % 3 != 0 {
                 continue;
             }
-            items.push((ci, pump_base + pi, 400.max(8 * cfgs[ci].cache / E)));
+            items.push((ci, pi, 400.max(8 * cfgs[ci].cache / E)));
         }
     }
-    let n_pump = items.len() - n_depth;
-    let res = par_map(&items, |_, (ci, si, rp)| run_seq(&cfgs[*ci], &all[*si], *rp));
-    let mut peak = 0isize;
-    for ((ci, si, rp), (v, pk)) in items.iter().zip(res) {
+    let n_pump = items.len();
+    let res = par_map(&items, |_, (ci, pi, rp)| run_seq(&cfgs[*ci], &pumps[*pi], *rp));
+    for ((ci, pi, rp), (v, pk)) in items.iter().zip(res) {
         peak = peak.max(pk);
         if let Some((key, what)) = v {
-            rep.add(Violation { key, what, case: json!({"check": "seq", "case": {"cfg": cfgs[*ci], "seq": all[*si], "repeat": rp}}) });
+            rep.add(Violation { key, what, case: json!({"check": "seq", "case": {"cfg": cfgs[*ci], "seq": pumps[*pi], "repeat": rp}}) });
         }
     }
     // (B) per-object cache sweeps
@@ -459,7 +488,7 @@ pub fn run(thorough: bool) -> i32 {
             rep.add(Violation { key, what, case: json!({"check": "cache", "case": {"cfg": cfgs[*ci], "scenario": sc, "n": n_sweep_pkts}}) });
         }
     }
-    let total = items.len() + sweeps.len();
+    let total = n_depth + items.len() + sweeps.len();
     rep.cov("states", total as u64);
     rep.cov("transitions", (n_depth * depth / 2 + n_pump * 450 + sweeps.len() * n_sweep_pkts) as u64);
     rep.cov("traces_validated_against_impl", total as u64);
